@@ -368,11 +368,17 @@ func (e *Env) exec(o Op) Res {
 			return res(err, "")
 		}
 		val := ""
+		var werr error
 		if o.Data != "" {
-			n, werr := f.Write([]byte(o.Data))
+			var n int
+			n, werr = f.Write([]byte(o.Data))
 			val = fmt.Sprintf("w=%d,%s", n, ErrClass(werr))
 		}
 		cerr := f.Close()
+		if werr != nil {
+			// the first error of the composite is its outcome
+			return resv(werr, val)
+		}
 		return res(cerr, val)
 	case "WriteFile":
 		return res(v.WriteFile(o.P, []byte(o.Data), perm), "")
